@@ -32,7 +32,8 @@ import (
 
 type c17Req struct {
 	idx       int
-	body      string // "" none, "replay" (GetBody available), "once" (plain io.Reader)
+	body      string // "" none, "replay" (known length, GetBody available), "once" (plain io.Reader of undeclared length), and the C17 shapes "trl-set", "trl-unset", "trl-empty", "stalled" (see request)
+	stall     *c17StallBody // body == "stalled"
 	cancel    context.CancelFunc
 	done      chan struct{}
 	resp      *http.Response
@@ -143,25 +144,131 @@ type c17OnceBody struct{ r *strings.Reader }
 func (b *c17OnceBody) Read(p []byte) (int, error) { return b.r.Read(p) }
 func (b *c17OnceBody) Close() error               { return nil }
 
-// request starts RoundTrip number len(reqs) in its own goroutine.
+// c17EOFHookBody is a body of undeclared length that calls atEOF (on the
+// goroutine that reads the body) just before it reports io.EOF: the documented
+// net/http way of filling in announced trailers.
+type c17EOFHookBody struct {
+	r     *strings.Reader
+	atEOF func()
+}
+
+func (b *c17EOFHookBody) Read(p []byte) (int, error) {
+	if b.r.Len() == 0 && b.atEOF != nil {
+		b.atEOF()
+		b.atEOF = nil
+	}
+	return b.r.Read(p)
+}
+func (b *c17EOFHookBody) Close() error { return nil }
+
+// c17StallBody is a body of undeclared length that delivers "abc" and then
+// does not reach EOF until the harness says so (release) or until it is closed
+// (by the Transport when the request is aborted, or by the harness at the end
+// of the case).
+type c17StallBody struct {
+	r        *strings.Reader
+	eof      chan struct{}
+	closed   chan struct{}
+	mu       sync.Mutex
+	released bool
+	isClosed bool
+}
+
+func (b *c17StallBody) Read(p []byte) (int, error) {
+	if b.r.Len() > 0 {
+		return b.r.Read(p)
+	}
+	select {
+	case <-b.closed:
+		return 0, io.ErrClosedPipe
+	default:
+	}
+	select {
+	case <-b.eof:
+		return 0, io.EOF
+	case <-b.closed:
+		return 0, io.ErrClosedPipe
+	}
+}
+
+func (b *c17StallBody) Close() error {
+	b.mu.Lock()
+	defer b.mu.Unlock()
+	if !b.isClosed {
+		b.isClosed = true
+		close(b.closed)
+	}
+	return nil
+}
+
+// release lets the body reach EOF.
+func (b *c17StallBody) release() {
+	b.mu.Lock()
+	defer b.mu.Unlock()
+	if !b.released {
+		b.released = true
+		close(b.eof)
+	}
+}
+
+// stalled: the body has neither reached EOF nor been closed.
+func (b *c17StallBody) stalled() bool {
+	b.mu.Lock()
+	defer b.mu.Unlock()
+	return !b.released && !b.isClosed
+}
+
+// request starts RoundTrip number len(reqs) in its own goroutine. body selects
+// the shape of the request:
+//
+//	""           GET without a body (END_STREAM on the request HEADERS)
+//	"replay"     POST, 3-byte body of declared length (END_STREAM on the last DATA frame)
+//	"once"       POST, 3-byte body of undeclared length, no trailers (END_STREAM on an empty DATA frame)
+//	"trl-set"    as "once", Request.Trailer announces X-T with a nil value that is filled in when the body reaches EOF (END_STREAM on the trailer HEADERS)
+//	"trl-unset"  as "once", Request.Trailer announces X-T with a nil value that is never filled in (nothing to send as trailers)
+//	"trl-empty"  as "once", Request.Trailer is a non-nil empty map
+//	"stalled"    as "once", but after its 3 bytes the body does not reach EOF before releaseBody (the request half of the stream stays open)
 func (h *c17cli) request(body string) *c17Req {
 	ctx, cancel := context.WithCancel(context.Background())
 	r := &c17Req{idx: len(h.reqs), body: body, cancel: cancel, done: make(chan struct{})}
 	var rd io.Reader
+	var trailer http.Header
 	method := "GET"
 	switch body {
+	case "":
 	case "replay":
 		rd = strings.NewReader("abc") // http.NewRequest sets GetBody
 		method = "POST"
 	case "once":
 		rd = &c17OnceBody{strings.NewReader("abc")}
 		method = "POST"
+	case "trl-set":
+		trailer = http.Header{"X-T": nil}
+		rd = &c17EOFHookBody{r: strings.NewReader("abc"), atEOF: func() { trailer.Set("X-T", "v") }}
+		method = "POST"
+	case "trl-unset":
+		trailer = http.Header{"X-T": nil}
+		rd = &c17EOFHookBody{r: strings.NewReader("abc")}
+		method = "POST"
+	case "trl-empty":
+		trailer = http.Header{}
+		rd = &c17EOFHookBody{r: strings.NewReader("abc")}
+		method = "POST"
+	case "stalled":
+		r.stall = &c17StallBody{r: strings.NewReader("abc"), eof: make(chan struct{}), closed: make(chan struct{})}
+		rd = r.stall
+		method = "POST"
+	default:
+		panic("c17cli.request: unknown body kind " + body)
 	}
 	req, err := http.NewRequestWithContext(ctx, method, "https://dummy.tld/"+strconv.Itoa(r.idx), rd)
 	if err != nil {
 		panic(err)
 	}
 	req.Header.Set("x-req", strconv.Itoa(r.idx))
+	if trailer != nil {
+		req.Trailer = trailer
+	}
 	// observe the pool's decisions for this request (public API, no effect on the Transport)
 	req = req.WithContext(httptrace.WithClientTrace(ctx, &httptrace.ClientTrace{
 		GotConn: func(ci httptrace.GotConnInfo) { h.noteAssign(r.idx, ci.Conn) },
@@ -402,6 +509,12 @@ func (h *c17cli) finish() {
 	synctest.Wait()
 	for _, r := range h.reqs {
 		r.cancel()
+	}
+	synctest.Wait()
+	for _, r := range h.reqs {
+		if r.stall != nil {
+			r.stall.Close() // a body that never ends would keep its request goroutine in the bubble for ever
+		}
 	}
 	synctest.Wait()
 	for _, c := range h.connList() {
